@@ -251,14 +251,30 @@ def check(repo: Repo, run: Run) -> None:
     celtypes_classes = {n.name for n in ct.tree.body if isinstance(n, ast.ClassDef)}
     allowed = celtypes_classes | {"CELEvalError"}
     n2 = 0
+    judged = set()
     for key, impl in sorted(impls.items()):
         if impl.kind == "func" and impl.module == "evaluation" and impl.name.startswith("function_"):
             n2 += 1
+            judged.add(impl.name)
             ok, why = wrapped_returns(impl.node, allowed, ev)
             if ok is None:
                 run.inconclusive("C13.W2", impl.name, why)
             else:
                 run.ob("C13.W2", impl.name, ok, f"{impl.name}: {why}", ev.loc(impl.node))
+    # a function_* registered through a wrapper (boolean(function_x), functools.wraps) is still called *by its own
+    # name* from generated code (the transpiler spells the callee from __module__/__qualname__), so the function
+    # itself must return CEL classes
+    for node in ev.tree.body:
+        if isinstance(node, ast.FunctionDef) and node.name.startswith("function_") and node.name not in judged:
+            referenced = any(isinstance(x, ast.Name) and x.id == node.name for v in matrix.base_functions(repo).values() if v is not None for x in ast.walk(v))
+            if not referenced:
+                continue
+            n2 += 1
+            ok, why = wrapped_returns(node, allowed, ev)
+            if ok is None:
+                run.inconclusive("C13.W2", node.name, why)
+            else:
+                run.ob("C13.W2", node.name, ok, f"{node.name} (registered through a wrapper; compiled code calls it by name): {why}", ev.loc(node))
     for mname, want in (("macro_map", {"ListType"}), ("macro_filter", {"ListType"}), ("macro_exists_one", {"BoolType"}),
                         ("macro_exists", {"BoolType"}), ("macro_all", {"BoolType"})):
         if ev.has(mname):
